@@ -306,3 +306,73 @@ spec fn can_output(a: KanataAction, slot: OsCode, k: OsCode) -> bool
             }
         }
     }
+
+// ---- chords v2: a key that takes part in a chord can put down what the chord's action puts down --
+//@ item keyberon/src/chord.rs struct ChordV2
+//@@ keep-vis
+//@@ no-derives
+//@@ attr #[verifier::reject_recursive_types(T)]
+//@@ keep-fields action disabled_layers
+//@ item keyberon/src/chord.rs struct ChordsForKey
+//@@ keep-vis
+//@@ no-derives
+//@@ attr #[verifier::reject_recursive_types(T)]
+//@ item keyberon/src/chord.rs struct ChordsForKeys
+//@@ keep-vis
+//@@ no-derives
+//@@ attr #[verifier::reject_recursive_types(T)]
+//@@ resub R3 1 /FxHashMap</ => `HashMap<`
+//@ raw
+impl<'a, T> HashMap<u16, ChordsForKey<'a, T>> {
+    pub uninterp spec fn view(&self) -> Map<u16, ChordsForKey<'a, T>>;
+    /// ASSUMED contract of FxHashMap::get
+    #[verifier::external_body]
+    pub fn get(&self, k: &u16) -> (r: Option<&ChordsForKey<'a, T>>)
+        ensures
+            self.view().contains_key(*k) ==> r == Some(&self.view()[*k]),
+            !self.view().contains_key(*k) ==> r.is_none(),
+    { unimplemented!() }
+}
+/// the chords-v2 state: opaque except for its chord table
+#[verifier::external_body]
+#[verifier::reject_recursive_types(T)]
+pub struct ChordsV2<'a, T> { p: core::marker::PhantomData<&'a T> }
+impl<'a, T> ChordsV2<'a, T> {
+    pub uninterp spec fn chords_spec(&self) -> ChordsForKeys<'a, T>;
+    #[verifier::external_body]
+    pub fn chords(&self) -> (r: &ChordsForKeys<'a, T>) ensures *r == self.chords_spec() { unimplemented!() }
+}
+// OsCode -> u16 (the number of the code): uninterpreted here
+pub uninterp spec fn osc_u16(o: OsCode) -> u16;
+impl vstd::std_specs::convert::FromSpecImpl<OsCode> for u16 {
+    open spec fn obeys_from_spec() -> bool { true }
+    open spec fn from_spec(o: OsCode) -> Self { osc_u16(o) }
+}
+impl From<OsCode> for u16 {
+    #[verifier::external_body]
+    fn from(o: OsCode) -> (r: u16) ensures r == osc_u16(o) { unimplemented!() }
+}
+
+//@ item parser/src/cfg/key_outputs.rs fn add_chordsv2_output_for_key_pos
+//@@ keep-vis
+//@@ spec
+    requires
+        // the `assert!` at the top of the function (a panic otherwise); the caller passes an index of `layers`
+        layer_idx <= 0xFFFF,
+    ensures
+        grows(*old(outputs), *final(outputs)),
+        // every chord this key takes part in that is not disabled on this layer contributes what
+        // its action can put down (and the override outputs of those keys)
+        chords_v2 is Some && chords_v2->0.chords_spec().mapping.view().contains_key(osc_u16(osc_slot)) ==> {
+            let cfk = chords_v2->0.chords_spec().mapping.view()[osc_u16(osc_slot)];
+            forall|i: int, k: OsCode| 0 <= i < cfk.chords@.len() && !cfk.chords@[i].disabled_layers@.contains(layer_idx as u16)
+                && #[trigger] can_output(*cfk.chords@[i].action, osc_slot, k) ==> rec(*final(outputs), osc_slot, k, *overrides)
+        },
+//@@ sub R10 1 `for chord in chords_for_key.chords.iter()` => `for chord in it: chords_for_key.chords.iter()`
+//@@ loop 1
+        invariant
+            grows(*old(outputs), *outputs),
+            it.seq().len() == chords_for_key.chords@.len(),
+            forall|i: int| 0 <= i < chords_for_key.chords@.len() ==> *(#[trigger] it.seq()[i]) == chords_for_key.chords@[i],
+            forall|j: int, k: OsCode| 0 <= j < it.index@ && !chords_for_key.chords@[j].disabled_layers@.contains(layer_idx as u16)
+                && #[trigger] can_output(*chords_for_key.chords@[j].action, osc_slot, k) ==> rec(*outputs, osc_slot, k, *overrides),
